@@ -241,12 +241,12 @@ class Check:
         return ok, res, out
 
     # ------------------------------------------------------------------- impl
-    def impl(self, script, payload=None, timeout=900, extra_env=None, args=()):
+    def impl(self, script, payload=None, timeout=900, extra_env=None, args=(), pyflags=(), cwd=None):
         """run impl/<script> against the repo; payload is sent as JSON on stdin; the script prints
         one JSON document on its last stdout line"""
-        cmd = [PY, os.path.join(VERIF, "impl", script)] + list(args)
+        cmd = [PY] + list(pyflags) + [os.path.join(VERIF, "impl", script)] + list(args)
         p = subprocess.run(cmd, input=json.dumps(payload) if payload is not None else "", capture_output=True,
-                           text=True, env=impl_env(extra_env), timeout=timeout, cwd=self.build)
+                           text=True, env=impl_env(extra_env), timeout=timeout, cwd=cwd or self.build)
         lines = [l for l in p.stdout.splitlines() if l.strip()]
         if p.returncode != 0 or not lines:
             raise RuntimeError("impl script %s failed (%d): %s" % (script, p.returncode, clean_out(p.stderr)[-3000:]))
